@@ -15,6 +15,10 @@ import DarsiaModel.Warp
 import DarsiaProofs.Affine
 import DarsiaProofs.Warp
 import DarsiaGen.PointRounding
+import DarsiaModel.Corrections
+import DarsiaProofs.Corrections
+import DarsiaProofs.Floor
+import DarsiaModel.GenPerspective
 namespace Darsia.C09
 open Darsia.Affine Darsia.Warp
 
@@ -350,5 +354,252 @@ example : warp2 (0 : Int) .coord (Affine2.mk' (shiftVec2 .coord ⟨5, 6, 0, 5/2,
 example : warp2 (0 : Int) .center (Affine2.mk' ⟨6, 0⟩ 1 0 1)
     ⟨5, 6, 0, 5/2, 1/2, 1/2⟩ ⟨6, 5, 0, 3, 1/2, 1/2⟩ .trunc (fun i j => 6 * i + j + 1) 0 0 = 6 := by
   decide +kernel
+
+/-! ## Round 2 -/
+
+section round2
+open Darsia.Corrections
+
+/-! ### RotationCorrection's own warp: quarter turns move voxels exactly -/
+
+/-- quarter turn (angle +π/2, exact matrix) about the central voxel of a (2m+1)² image: `np.rot90(img, 1)`. -/
+theorem rotcorr_quarter_turn_2d (m : Nat) (a : TArr) (h0 : a.arr.n0 = 2 * m + 1) (h1 : a.arr.n1 = 2 * m + 1)
+    (i j : Int) (hi0 : 0 ≤ i) (hi1 : i < a.arr.n0) (hj0 : 0 ≤ j) (hj1 : j < a.arr.n1) :
+    (rotCorr2 ⟨(m : Rat), (m : Rat)⟩ (rot2Inv 0 1) a).arr.get i j = rot90 a.arr.n1 a.arr.get i j := by
+  simp only [rotCorr2, rotSrc2, rot2Inv, M2.mulVec, V2.add, V2.sub, rot90]
+  have e0 : (m : Rat) + (0 * ((i : Rat) - (m : Rat)) + 1 * ((j : Rat) - (m : Rat))) = ((j : Int) : Rat) := by ring
+  have e1 : (m : Rat) + (-1 * ((i : Rat) - (m : Rat)) + 0 * ((j : Rat) - (m : Rat)))
+      = (((a.arr.n1 : Int) - 1 - i : Int) : Rat) := by rw [h1]; push_cast; ring
+  rw [e0, e1, trunc_int, trunc_int, clipInt_id j _ hj0 (by omega), clipInt_id _ _ (by omega) (by omega)]
+
+/-- 3-D quarter turns (+π/2 about each matrix axis, exact matrices) about the central voxel of a (2m+1)³ image
+are `np.rot90` in the planes (1,2), (2,0), (0,1). -/
+theorem rotcorr_quarter_turn_3d (axis : Ax3) (m : Nat) (a : TArr3)
+    (h0 : a.arr.n0 = 2 * m + 1) (h1 : a.arr.n1 = 2 * m + 1) (h2 : a.arr.n2 = 2 * m + 1)
+    (i j k : Int) (hi0 : 0 ≤ i) (hi1 : i < a.arr.n0) (hj0 : 0 ≤ j) (hj1 : j < a.arr.n1)
+    (hk0 : 0 ≤ k) (hk1 : k < a.arr.n2) :
+    (rotCorr3 ⟨(m : Rat), (m : Rat), (m : Rat)⟩ (rotationInv [⟨axis, false, 0, 1⟩]) a).arr.get i j k
+      = rot90_3 axis (2 * m + 1) a.arr.get i j k := by
+  have hR : rotationInv [(⟨axis, false, 0, 1⟩ : Factor Rat)] = elem axis 0 (-1) := by
+    simp only [rotationInv, rotationLoop, List.foldl_cons, List.foldl_nil, Factor.inv, Factor.sf]
+    exact M3.mul_one _
+  rw [hR]
+  cases axis
+  · simp only [rotCorr3, rotSrc3, elem, M3.mulVec, V3.add, V3.sub, rot90_3]
+    have e0 : (m : Rat) + (1 * ((i : Rat) - m) + 0 * ((j : Rat) - m) + 0 * ((k : Rat) - m)) = ((i : Int) : Rat) := by ring
+    have e1 : (m : Rat) + (0 * ((i : Rat) - m) + 0 * ((j : Rat) - m) + - -1 * ((k : Rat) - m)) = ((k : Int) : Rat) := by ring
+    have e2 : (m : Rat) + (0 * ((i : Rat) - m) + -1 * ((j : Rat) - m) + 0 * ((k : Rat) - m))
+        = (((2 * m + 1 : Nat) : Int) - 1 - j : Int) := by push_cast; ring
+    rw [e0, e1, e2, trunc_int, trunc_int, trunc_int, clipInt_id i _ hi0 hi1, clipInt_id k _ hk0 (by omega),
+      clipInt_id _ _ (by omega) (by omega)]
+  · simp only [rotCorr3, rotSrc3, elem, M3.mulVec, V3.add, V3.sub, rot90_3]
+    have e0 : (m : Rat) + (0 * ((i : Rat) - m) + 0 * ((j : Rat) - m) + -1 * ((k : Rat) - m))
+        = (((2 * m + 1 : Nat) : Int) - 1 - k : Int) := by push_cast; ring
+    have e1 : (m : Rat) + (0 * ((i : Rat) - m) + 1 * ((j : Rat) - m) + 0 * ((k : Rat) - m)) = ((j : Int) : Rat) := by ring
+    have e2 : (m : Rat) + (- -1 * ((i : Rat) - m) + 0 * ((j : Rat) - m) + 0 * ((k : Rat) - m)) = ((i : Int) : Rat) := by ring
+    rw [e0, e1, e2, trunc_int, trunc_int, trunc_int, clipInt_id _ _ (by omega) (by omega), clipInt_id j _ hj0 hj1,
+      clipInt_id i _ hi0 (by omega)]
+  · simp only [rotCorr3, rotSrc3, elem, M3.mulVec, V3.add, V3.sub, rot90_3]
+    have e0 : (m : Rat) + (0 * ((i : Rat) - m) + - -1 * ((j : Rat) - m) + 0 * ((k : Rat) - m)) = ((j : Int) : Rat) := by ring
+    have e1 : (m : Rat) + (-1 * ((i : Rat) - m) + 0 * ((j : Rat) - m) + 0 * ((k : Rat) - m))
+        = (((2 * m + 1 : Nat) : Int) - 1 - i : Int) := by push_cast; ring
+    have e2 : (m : Rat) + (0 * ((i : Rat) - m) + 0 * ((j : Rat) - m) + 1 * ((k : Rat) - m)) = ((k : Int) : Rat) := by ring
+    rw [e0, e1, e2, trunc_int, trunc_int, trunc_int, clipInt_id j _ hj0 (by omega), clipInt_id _ _ (by omega) (by omega),
+      clipInt_id k _ hk0 hk1]
+
+
+/-! ### TransformationCorrection: 3-D quarter turns in voxel-centre mode -/
+
+theorem rnd_center (rnd : Rounding) (q : Rat) (n : Int) (hn : 0 ≤ n) (hq : q = (n : Rat) + half) :
+    rnd.app ((rnd.app q : Rat) + half) = n := by
+  rw [hq, rnd_nonneg_add_half rnd n hn, rnd_nonneg_add_half rnd n hn]
+
+/-- +π/2 about each matrix axis with translation (0,n2,0) / (0,0,n0) / (n1,0,0): destination voxel (i,j,k) pulls
+back to the source voxel of `np.rot90` in the plane (1,2) / (2,0) / (0,1); either rounding of the point constructors. -/
+theorem src_quarter_turn_3d (rnd : Rounding) (csS csD : CS3) (i j k : Int) (hi : 0 ≤ i) (hj : 0 ≤ j) (hk : 0 ≤ k) :
+    (j < csS.n2 → src3 .center (Affine3.mk' ⟨0, (csS.n2 : Rat), 0⟩ 1 [⟨.a0, false, 0, 1⟩]) csS csD rnd i j k
+        = (i, k, (csS.n2 : Int) - 1 - j)) ∧
+    (k < csS.n0 → src3 .center (Affine3.mk' ⟨0, 0, (csS.n0 : Rat)⟩ 1 [⟨.a1, false, 0, 1⟩]) csS csD rnd i j k
+        = ((csS.n0 : Int) - 1 - k, j, i)) ∧
+    (i < csS.n1 → src3 .center (Affine3.mk' ⟨(csS.n1 : Rat), 0, 0⟩ 1 [⟨.a2, false, 0, 1⟩]) csS csD rnd i j k
+        = (j, (csS.n1 : Int) - 1 - i, k)) := by
+  refine ⟨fun h => ?_, fun h => ?_, fun h => ?_⟩ <;>
+  · simp only [src3, Affine3.inverse, Affine3.mk', rotationInv, rotationLoop, List.foldl_cons, List.foldl_nil,
+      Factor.inv, Factor.sf, elem, M3.mul, M3.one, M3.mulVec, V3.sub, V3.smul, Bool.false_eq_true, if_false]
+    refine Prod.ext ?_ (Prod.ext ?_ ?_) <;> apply rnd_center <;>
+      first | omega | (dsimp only; omega) | (unfold half; push_cast; ring)
+
+/-- 3-D quarter turn ⇒ `np.rot90` in the corresponding plane (on the whole result). -/
+theorem warp_quarter_turn_3d {β : Type} (zero : β) (rnd : Rounding) (csS csD : CS3)
+    (arr : Int → Int → Int → β) (i j k : Int) (hi : 0 ≤ i) (hj : 0 ≤ j) (hk : 0 ≤ k) :
+    (i < csS.n0 → k < csS.n1 → j < csS.n2 →
+      warp3 zero .center (Affine3.mk' ⟨0, (csS.n2 : Rat), 0⟩ 1 [⟨.a0, false, 0, 1⟩]) csS csD rnd arr i j k
+        = rot90_3 .a0 csS.n2 arr i j k) ∧
+    (k < csS.n0 → j < csS.n1 → i < csS.n2 →
+      warp3 zero .center (Affine3.mk' ⟨0, 0, (csS.n0 : Rat)⟩ 1 [⟨.a1, false, 0, 1⟩]) csS csD rnd arr i j k
+        = rot90_3 .a1 csS.n0 arr i j k) ∧
+    (j < csS.n0 → i < csS.n1 → k < csS.n2 →
+      warp3 zero .center (Affine3.mk' ⟨(csS.n1 : Rat), 0, 0⟩ 1 [⟨.a2, false, 0, 1⟩]) csS csD rnd arr i j k
+        = rot90_3 .a2 csS.n1 arr i j k) := by
+  obtain ⟨h0, h1, h2⟩ := src_quarter_turn_3d rnd csS csD i j k hi hj hk
+  refine ⟨fun a b c => ?_, fun a b c => ?_, fun a b c => ?_⟩
+  · have hv : csS.valid (i, k, (csS.n2 : Int) - 1 - j) = true := by
+      simp only [CS3.valid, Bool.and_eq_true, decide_eq_true_eq]; omega
+    simp only [warp3, h0 c, hv, rot90_3, if_true]
+  · have hv : csS.valid ((csS.n0 : Int) - 1 - k, j, i) = true := by
+      simp only [CS3.valid, Bool.and_eq_true, decide_eq_true_eq]; omega
+    simp only [warp3, h1 a, hv, rot90_3, if_true]
+  · have hv : csS.valid (j, (csS.n1 : Int) - 1 - i, k) = true := by
+      simp only [CS3.valid, Bool.and_eq_true, decide_eq_true_eq]; omega
+    simp only [warp3, h2 b, hv, rot90_3, if_true]
+
+/-! ### voxel mode quarter turn: exact model = rot90; which voxels float noise can move -/
+
+/-- on the exact model the Voxel-typed quarter turn (translation (n1 − 1, 0)) IS `np.rot90`. -/
+theorem warp_quarter_turn_voxel_exact {β : Type} (zero : β) (rnd : Rounding) (csS csD : CS2)
+    (arr : Int → Int → β) (v0 v1 : Int) (hv0 : 0 ≤ v0) (hv1 : 0 ≤ v1) (hn0 : v0 < csS.n1) (hn1 : v1 < csS.n0) :
+    pre2 .voxel (Affine2.mk' ⟨(csS.n1 : Rat) - 1, 0⟩ 1 0 1) csS csD rnd v0 v1
+      = [((v1 : Int) : Rat), (((csS.n1 : Int) - 1 - v0 : Int) : Rat)] ∧
+    warp2 zero .voxel (Affine2.mk' ⟨(csS.n1 : Rat) - 1, 0⟩ 1 0 1) csS csD rnd arr v0 v1 = rot90 csS.n1 arr v0 v1 := by
+  have e0 : ∀ a b : Rat, (1 / 1 * (0 * (a - ((csS.n1 : Rat) - 1)) + 1 * (b - 0)) : Rat) = b := by intro a b; ring
+  have e1 : (1 / 1 * (-1 * ((v0 : Rat) - ((csS.n1 : Rat) - 1)) + 0 * ((v1 : Rat) - 0)) : Rat)
+      = (((csS.n1 : Int) - 1 - v0 : Int) : Rat) := by push_cast; ring
+  constructor
+  · simp only [pre2, Affine2.inverse, Affine2.mk', rot2Inv, M2.mulVec, V2.sub, V2.smul,
+      rnd_nonneg_add_half rnd v0 hv0, rnd_nonneg_add_half rnd v1 hv1, e0, e1]
+  · have hs : src2 .voxel (Affine2.mk' ⟨(csS.n1 : Rat) - 1, 0⟩ 1 0 1) csS csD rnd v0 v1
+        = (v1, (csS.n1 : Int) - 1 - v0) := by
+      simp only [src2, Affine2.inverse, Affine2.mk', rot2Inv, M2.mulVec, V2.sub, V2.smul,
+        rnd_nonneg_add_half rnd v0 hv0, rnd_nonneg_add_half rnd v1 hv1, e0, e1, rnd_int]
+    have hv : csS.valid (v1, (csS.n1 : Int) - 1 - v0) = true := by
+      simp only [CS2.valid, Bool.and_eq_true, decide_eq_true_eq]; omega
+    simp only [warp2, hs, hv, rot90, if_true]
+
+theorem fracDist_int (n : Int) : fracDist (n : Rat) = 0 := by
+  unfold fracDist; simp only [floor_int, sub_self]; rw [if_pos (by unfold half; norm_num)]
+
+theorem fracDist_half (n : Int) : fracDist ((n : Rat) + half) = half := by
+  unfold fracDist; simp only [floor_int_add_half]
+  have : (n : Rat) + half - (n : Rat) = half := by ring
+  rw [this, if_pos (le_refl _)]
+
+/-- GUARD (float bridge): a pre-rounding quantity whose distance to the nearest integer is at least δ keeps its
+floor under every perturbation smaller than δ. Hence a float evaluation of the pull-back can select a different
+source voxel ONLY at destination voxels whose exact pre-image is closer than the float error to a breakpoint. -/
+theorem floor_stable_of_fracDist (q e δ : Rat) (hd : δ ≤ fracDist q) (he : |e| < δ) :
+    (q + e).floor = q.floor := by
+  have hf0 : (q.floor : Rat) ≤ q := by
+    have := Int.floor_le q; rwa [← ratFloor_eq] at this
+  apply Darsia.floor_stable q e δ
+  · unfold fracDist at hd; simp only at hd; split at hd <;> unfold half at * <;> linarith
+  · unfold fracDist at hd; simp only at hd; split at hd <;> unfold half at * <;> linarith
+  · exact he
+
+/-- voxel-centre mode quarter turn: every pre-image component is a half-integer, so ANY perturbation below 1/2
+(float noise of cos(π/2) is 6e-17) leaves the source voxel unchanged — the mode is robust. -/
+theorem quarter_turn_center_robust (rnd : Rounding) (csS csD : CS2) (v0 v1 : Int) (e : Rat) (he : |e| < 1 / 2) :
+    ∀ q ∈ pre2 .center (Affine2.mk' ⟨(csS.n1 : Rat), 0⟩ 1 0 1) csS csD rnd v0 v1,
+      fracDist q = half ∧ (q + e).floor = q.floor := by
+  have e0 : (1 / 1 * (0 * ((v0 : Rat) + half - (csS.n1 : Rat)) + 1 * ((v1 : Rat) + half - 0)) : Rat)
+      = ((v1 : Int) : Rat) + half := by ring
+  have e1 : (1 / 1 * (-1 * ((v0 : Rat) + half - (csS.n1 : Rat)) + 0 * ((v1 : Rat) + half - 0)) : Rat)
+      = (((csS.n1 : Int) - 1 - v0 : Int) : Rat) + half := by unfold half; push_cast; ring
+  intro q hq
+  simp only [pre2, Affine2.inverse, Affine2.mk', rot2Inv, M2.mulVec, V2.sub, V2.smul, e0, e1,
+    List.mem_cons, List.mem_nil_iff, or_false] at hq
+  rcases hq with rfl | rfl <;>
+    exact ⟨fracDist_half _, floor_stable_of_fracDist _ e (1 / 2) (by rw [fracDist_half]; unfold half; norm_num) he⟩
+
+/-- voxel mode quarter turn: every pre-image component is an integer — it lies ON a rounding breakpoint
+(distance 0), and an arbitrarily small negative perturbation moves the source voxel by one. This is exactly the set of
+voxels of the known finding `C09:warp(quarter-turn,mode=voxel):not-rot90`: all of them are exposed to float noise. -/
+theorem quarter_turn_voxel_on_breakpoint (rnd : Rounding) (csS csD : CS2) (v0 v1 : Int)
+    (hv0 : 0 ≤ v0) (hv1 : 0 ≤ v1) (ε : Rat) (h0 : 0 < ε) (h1 : ε ≤ 1) :
+    ∀ q ∈ pre2 .voxel (Affine2.mk' ⟨(csS.n1 : Rat) - 1, 0⟩ 1 0 1) csS csD rnd v0 v1,
+      fracDist q = 0 ∧ (q - ε).floor = q.floor - 1 := by
+  have e0 : ∀ a b : Rat, (1 / 1 * (0 * (a - ((csS.n1 : Rat) - 1)) + 1 * (b - 0)) : Rat) = b := by intro a b; ring
+  have e1 : (1 / 1 * (-1 * ((v0 : Rat) - ((csS.n1 : Rat) - 1)) + 0 * ((v1 : Rat) - 0)) : Rat)
+      = (((csS.n1 : Int) - 1 - v0 : Int) : Rat) := by push_cast; ring
+  have key : ∀ n : Int, fracDist (n : Rat) = 0 ∧ ((n : Rat) - ε).floor = (n : Rat).floor - 1 := by
+    intro n
+    refine ⟨fracDist_int n, ?_⟩
+    rw [floor_int]
+    exact Darsia.floor_eq_of_bounds (by push_cast; linarith) (by push_cast; linarith)
+  intro q hq
+  simp only [pre2, Affine2.inverse, Affine2.mk', rot2Inv, M2.mulVec, V2.sub, V2.smul,
+    rnd_nonneg_add_half rnd v0 hv0, rnd_nonneg_add_half rnd v1 hv1, e0, e1,
+    List.mem_cons, List.mem_nil_iff, or_false] at hq
+  rcases hq with rfl | rfl <;> exact key _
+
+end round2
+
+/-! ### GeneralizedPerspectiveTransformation.inverse_array (rational part), over any field -/
+
+section genperspective
+open Darsia.GenPerspective
+
+variable {F : Type} [Field F]
+
+/-- identity: with the constructor's default parameters every point is mapped to itself, for any image box. -/
+theorem gp_identity (center maxC minC x : V2 F) : (GP.default center maxC minC).inverse x = x := by
+  ext <;> simp [GP.inverse, GP.stretch, GP.bulge, GP.perspective, GP.default, M2.mulVec, M2.one, V2.add, V2.dot]
+
+/-- affine reduction: without perspective scaling, bulge and stretch the map is x ↦ A x + b … -/
+theorem gp_affine_reduction (A : M2 F) (b center maxC minC x : V2 F) :
+    (GP.affine A b center maxC minC).inverse x = V2.add (A.mulVec x) b := by
+  ext <;> simp [GP.inverse, GP.stretch, GP.bulge, GP.perspective, GP.affine, V2.add, V2.dot]
+
+/-- … in particular a pure translation for A = I. -/
+theorem gp_translation (b center maxC minC x : V2 F) :
+    (GP.affine M2.one b center maxC minC).inverse x = V2.add x b := by
+  rw [gp_affine_reduction, M2.one_mulVec]
+
+/-- the affine sub-case with the parameters of an `AffineTransformation` (A = R_inv / σ, b = −R_inv t / σ) is that
+transformation's `inverse_array`. -/
+theorem gp_affine_eq_affine_inverse (t : V2 F) (σ c s : F) (center maxC minC x : V2 F) :
+    (GP.affine ⟨(1 / σ) * c, (1 / σ) * s, (1 / σ) * (-s), (1 / σ) * c⟩
+        (V2.smul (-(1 / σ)) ((rot2Inv c s).mulVec t)) center maxC minC).inverse x
+      = (Affine2.mk' t σ c s).inverse x := by
+  rw [gp_affine_reduction]
+  ext <;> simp only [Affine2.inverse, Affine2.mk', rot2Inv, M2.mulVec, V2.add, V2.sub, V2.smul] <;> ring
+
+/-- inverse of the affine sub-case: for det A ≠ 0 the map is a bijection of the plane, undone by
+y ↦ adj(A)(y − b)/det A (both compositions are the identity). -/
+theorem gp_affine_invertible (A : M2 F) (b center maxC minC : V2 F) (hd : A.det ≠ 0) (x y : V2 F) :
+    affineUndo A b ((GP.affine A b center maxC minC).inverse x) = x ∧
+    (GP.affine A b center maxC minC).inverse (affineUndo A b y) = y := by
+  have hd' : A.a11 * A.a22 - A.a12 * A.a21 ≠ 0 := hd
+  rw [gp_affine_reduction, gp_affine_reduction]
+  constructor <;> ext <;>
+    simp only [affineUndo, GenPerspective.M2.adj, M2.mulVec, M2.det, V2.add, V2.sub] <;>
+    generalize hD : A.a11 * A.a22 - A.a12 * A.a21 = D at hd' ⊢ <;> field_simp <;> rw [← hD] <;> ring
+
+/-- perspective division: both components are divided by the same scalar c·x + 1; where it does not vanish,
+(c·x + 1)·y = A x + b (a projective map; bulge and stretch switched off). -/
+theorem gp_perspective_division (p : GP F) (x : V2 F) (h : p.denom x ≠ 0) :
+    V2.smul (p.denom x) (p.perspective x) = V2.add (p.A.mulVec x) p.b := by
+  have h' : V2.dot p.c x + 1 ≠ 0 := h
+  ext <;> simp only [GP.perspective, GP.denom, V2.smul, V2.add] <;> field_simp
+
+/-- the bulge moves neither the (offset) centre lines nor the image boundary: component i of the correction vanishes
+where component i of the point equals centre + offset, the maximal or the minimal coordinate. -/
+theorem gp_bulge_fixes_centre_and_boundary (p : GP F) (y : V2 F)
+    (hx : y.x = p.center.x + p.bulgeOff.x ∨ y.x = p.maxC.x ∨ y.x = p.minC.x)
+    (hy : y.y = p.center.y + p.bulgeOff.y ∨ y.y = p.maxC.y ∨ y.y = p.minC.y) : p.bulge y = y := by
+  ext
+  · rcases hx with h | h | h <;> simp [GP.bulge, h]
+  · rcases hy with h | h | h <;> simp [GP.bulge, h]
+
+/-- zero factors switch bulge and stretch off, whatever the offsets and the image box. -/
+theorem gp_no_bulge_no_stretch (p : GP F) (hb : p.bulgeFactor = ⟨0, 0⟩) (hs : p.stretchFactor = ⟨0, 0⟩) (x : V2 F) :
+    p.inverse x = p.perspective x := by
+  ext <;> simp [GP.inverse, GP.stretch, GP.bulge, hb, hs]
+
+example : (GP.affine (⟨2, 1, 0, 1/2⟩ : M2 Rat) ⟨1, -1⟩ ⟨0, 0⟩ ⟨1, 1⟩ ⟨-1, -1⟩).inverse ⟨3, 4⟩ = ⟨11, 1⟩ := by
+  decide +kernel
+example : ((⟨⟨1, 0, 0, 1⟩, ⟨0, 0⟩, ⟨1/2, 0⟩, ⟨0, 0⟩, ⟨0, 0⟩, ⟨1, 0⟩, ⟨0, 0⟩, ⟨0, 0⟩, ⟨2, 2⟩, ⟨-2, -2⟩⟩ : GP Rat).inverse ⟨2, 4⟩)
+    = ⟨4, 2⟩ := by decide +kernel
+
+end genperspective
 
 end Darsia.C09
